@@ -181,13 +181,10 @@ type liveSession struct {
 	IP   *interposer
 }
 
+// Close shuts the session down in the background: Shutdown can block for seconds on
+// bigmachine's own timers, and nothing depends on its completion.
 func (ls *liveSession) Close() {
-	done := make(chan struct{})
-	go func() { ls.Sess.Shutdown(); close(done) }()
-	select {
-	case <-done:
-	case <-time.After(2 * time.Second):
-	}
+	go ls.Sess.Shutdown()
 }
 
 var quietOnce sync.Once
